@@ -78,6 +78,13 @@ def register4(R, P):
 
 
 def register5(R, P):
+    P["C11"] = {"targets": ["SpaceUpdater._execute_or_restore", "SpaceManager.set_cells_property", "CellsImpl.set_value_from_key", "CellsImpl._store_value",
+                            "System.rename_model", "ModelImpl.rename"],
+                "shards": {"CellsImpl.set_value_from_key": 6},
+                "trusted_base": ["InstructionList.execute may raise at any point; update_subs re-derives along the graph of the object it is called on (ghost counter)",
+                                 "Formula construction validates and has no effect on the model"],
+                "assumptions": ["the transactional behaviour of new_space/add_bases/remove_bases/del_defined_space beyond this, name validation and the "
+                                "description-level 'nothing changed' check: bounded driver only"]}
     P["C03"] = {"targets": ["SpaceManager.set_cells_property"], "shards": {},
                 "trusted_base": ["_get_subs (descendants in topological order), get_deriv_bases()[0] as the uninterpreted first_defined_base (C3 itself: bounded against CPython)",
                                  "UserCellsImpl.on_set_property through its call-site view (applied once; flag set): proved separately under C09",
